@@ -131,6 +131,11 @@ def positions_case(case, res=None):
     p.block(b['block'])
     text, pos = render(p.toks, lay['gaps'], lay['end_gaps'])
     info = dict(case, text=text)
+    # positions must not depend on what was parsed before: a trivial accepted text, then a drawn (usually rejected)
+    # text spanning several lines, then the text under test
+    parse_total('x = 1;', info)
+    if case.get('poison') is not None:
+        parse_total(case['poison'], info)
     out, root = parse_total(text, info)
     if out != 'ok':
         raise Violation('valid-body-rejected', info, 'ParseException for generated text %r' % text)
@@ -218,7 +223,9 @@ def run(ctx):
     hyp_run(ctx, res, st.lists(st.sampled_from(SOUP), min_size=1, max_size=40).map(lambda ts: ' '.join(ts)).map(wrap('soup')),
             tb, ctx.pick(1500, 10000), label='soup')
     hyp_run(ctx, res, mutants().map(wrap('mutant')), tb, ctx.pick(1500, 10000), label='mutants')
-    hyp_run(ctx, res, st.fixed_dictionaries({'tape': oalsyn.tapes(400, 40), 'layout': oalsyn.layouts()}),
+    poison = st.one_of(st.none(), st.lists(st.sampled_from(SOUP + ['\n', '\n', ';\n']), min_size=1, max_size=15).map(lambda ts: ' '.join(ts)),
+                       st.sampled_from(['x = 1;\ny = 2;\nz = 3', 'if (true)\n x = 1;\n', 'x = (1 +\n\n 2;', '/* a\nb */ x = ;', 'x = 1;\n\n\n']))
+    hyp_run(ctx, res, st.fixed_dictionaries({'tape': oalsyn.tapes(400, 40), 'layout': oalsyn.layouts(), 'poison': poison}),
             lambda c: positions_case(c, res), ctx.pick(3000, 20000), label='positions')
     return res
 
